@@ -229,6 +229,9 @@ def r2_ownership(a, tier):
             q = f.qualname
             rep.add({'store': attr, 'function': q, 'access': kind, 'expr': norm(par)[:70] if par is not None else attr})
             allowed = table.get(q)
+            if allowed is None and kind == 'assign' and f.name == '__init__' and par is not None and isinstance(getattr(par, 'value', None), (ast.Dict, ast.Call)) \
+                    and norm(par.value) in ('{}', 'dict()'):
+                allowed = {'assign'}  # a declaration of the (empty) store in the constructor; whether it is created anew per parse is C06.R6's business
             if allowed is None:
                 # a private helper reached only from owners of this kind of access acts on their behalf
                 if a.callgraph.only_reached_through(q, {o for o, ks in table.items() if kind in ks}):
